@@ -41,14 +41,15 @@ def floors(tier):
     return {"distinct_nontrivial": 50, "count:zoneA_points": 100000, "count:zoneC_points": 500, "count:recorded_calls": 100, "count:recorded_refusals": 1, "count:recorded_steps_with_retries": 20}
 
 
-GAMMAS = [0.0, 1e-4, 0.1, 1.0, 10.0, 100.0]
+GAMMAS = [0.0, 1e-4, 0.1, 1.0, 10.0, 100.0, 1e4]
+GAMMAS_THOROUGH = [1e3, 1e6]
 US = [0.5, 1.0, 5.79]
 
 
 def cases(tier, seed):
     out = []
     dts = [10.0**k for k in range(-10, 0)] + ([1.0, 10.0] if tier == "thorough" else [1.0])
-    for g, u, dt in itertools.product(GAMMAS, US, dts):
+    for g, u, dt in itertools.product(GAMMAS + (GAMMAS_THOROUGH if tier == "thorough" else []), US, dts):
         out.append(dict(fam="grid", gamma=g, u=u, dt=dt, tier=tier))
     drives = ("field", "current", "eps_t", "eps_t_loop")
     if tier == "quick":
@@ -136,6 +137,15 @@ def term_scale(psi, eps, lap, gamma, u, dt):
     return (gamma**2 / 2) * np.abs(psi) * a2 + np.abs(psi) + (dt / u) * np.sqrt(1 + gamma**2 * a2) * (np.abs(eps - a2) * np.abs(psi) + np.abs(lap))
 
 
+def disc_scale(ref, psi, eps, lap, gamma, u, dt):
+    """Magnitude of the terms that make up the discriminant 4c + 1 - 4s^2 (c + i s = conj(z) w) when each is formed from its own
+    terms: |c|, |s| <= |z| S with S the magnitude of the terms of w.  Rounding of the inputs' own arithmetic moves the discriminant
+    by a few ulps of this; a decision that depends on less than 1e-9 of it is left open (zone B)."""
+    S = np.asarray(term_scale(psi, eps, lap, gamma, u, dt), np.longdouble)
+    zS = np.abs(np.asarray(ref["z"])).astype(np.longdouble) * S
+    return 1 + 4 * zS + 8 * np.abs(np.asarray(ref["s"], np.longdouble)) * zS
+
+
 def check_answer(res, p, x, psi, mu, eps, lap, gamma, u, dt, ref, ctx):
     """p, x: answered values for zone-A points; ref: psi_update dict restricted to the same points"""
     S = term_scale(psi, eps, lap, gamma, u, dt)
@@ -163,7 +173,11 @@ def check_answer(res, p, x, psi, mu, eps, lap, gamma, u, dt, ref, ctx):
         i = int(np.argmax(r1))
         res.violate("equation-not-satisfied", **ctx, detail={"psi": psi[i], "mu": mu[i], "eps": eps[i], "lap": lap[i], "rel": float(r1[i])})
         ok = False
-    r2 = np.abs(np.abs(p) ** 2 - x) / np.maximum((S + zx) ** 2, 1e-300)
+    # |p|^2 - x: p = w - z x carries an error of a few ulps of S + |z| x; an error dx of x enters as sqrt(disc) dx, and dx is at most
+    # x dT / (2 sqrt(disc) (b + sqrt(disc))) for a discriminant known to dT = ulps of its terms - no blow-up at the threshold
+    T = np.asarray(disc_scale(ref, psi, eps, lap, gamma, u, dt), float)
+    M = (S + zx) * np.maximum(np.abs(p), np.sqrt(np.maximum(x, 0))) + np.maximum(x, 0) * T / np.maximum(b + np.sqrt(np.maximum(disc, 0)), 1e-300)
+    r2 = np.abs(np.abs(p) ** 2 - x) / np.maximum(M, 1e-300)
     res.residual("modulus", float(r2.max()))
     if r2.max() > TOLERANCES["modulus"]:
         i = int(np.argmax(r2))
@@ -186,7 +200,9 @@ def run_grid(case):
     res.key = case_key(case)
     g, u, dt = case["gamma"], case["u"], case["dt"]
     psi, mu, eps, lap = grid_points(case["tier"])
-    near = near_threshold_points(g, u, dt)
+    # (for gamma > 100 the constructed near-threshold points need a Laplacian action that cancels gamma^2 |psi|^3 / 2 to many digits:
+    #  whether they are solvable is then decided by the rounding of w itself, i.e. by the input, and they are left out)
+    near = near_threshold_points(g, u, dt) if g <= 100 else None
     forcedB = np.zeros(len(psi), bool)
     if near is not None and dt >= 1e-6:  # for smaller dt the required Laplacian action is so large that rounding in w swamps delta
         forcedB = np.concatenate([forcedB, near[4]])
@@ -195,7 +211,7 @@ def run_grid(case):
     ref = psi_update(psi, mu, eps, g, u, dt, lap)
     b = np.asarray(ref["b"], np.longdouble)
     disc = np.asarray(ref["disc"], np.longdouble)
-    thr = np.longdouble(TOLERANCES["zone"]) * b * b
+    thr = np.longdouble(TOLERANCES["zone"]) * disc_scale(ref, psi, eps, lap, g, u, dt)
     finite = np.isfinite(np.asarray(disc, float)) & np.isfinite(np.asarray(ref["w"], complex))
     # points constructed to sit on the threshold are undecided whatever the reference says (the construction itself is rounded)
     zoneA = np.asarray(finite & (disc > thr) & ~forcedB)
@@ -376,17 +392,18 @@ def run_recorded(case):
         ref = psi_update(psi, mu, eps, g, u, dt, lap)
         b = np.asarray(ref["b"], float)
         disc = np.asarray(ref["disc"], float)
+        dsc = np.asarray(disc_scale(ref, psi, eps, lap, g, u, dt), float)
         res.count("recorded_calls")
         ctx = dict(gamma=g, u=u, dt=float(f"{dt:.3g}"))
         if out is None:
             res.count("recorded_refusals")
-            if np.all(disc > TOLERANCES["zone"] * b * b):
+            if np.all(disc > TOLERANCES["zone"] * dsc):
                 res.violate("solvable-batch-refused", only_with_tiny_psi=False, **ctx, detail={"recorded": True, "min_disc": float(disc.min())})
         else:
-            if np.any(disc < -TOLERANCES["zone"] * b * b):
+            if np.any(disc < -TOLERANCES["zone"] * dsc):
                 res.violate("unsolvable-site-answered", alone=False, embedded=True, **ctx, detail={"recorded": True, "min_disc": float(disc.min())})
                 continue
-            keep = disc > TOLERANCES["zone"] * b * b
+            keep = disc > TOLERANCES["zone"] * dsc
             check_answer(res, out[0][keep], out[1][keep], psi[keep], mu[keep], eps[keep], lap[keep], g, u, dt, {k: np.asarray(v)[keep] for k, v in ref.items()}, ctx)
     sites = np.asarray(solver.sites)
     for psi, mu, eps, dt_in, lap, p_out, x_out, dt_out, ncalls, t_step in steps:
@@ -404,10 +421,11 @@ def run_recorded(case):
         b = np.asarray(ref["b"], float)
         disc = np.asarray(ref["disc"], float)
         ctx = dict(gamma=g, u=u, dt=float(f"{dt_out:.3g}"))
-        if np.any(disc < -TOLERANCES["zone"] * b * b):
+        dsc = np.asarray(disc_scale(ref, psi, eps, lap, g, u, dt_out), float)
+        if np.any(disc < -TOLERANCES["zone"] * dsc):
             res.violate("step-answered-for-a-time-step-without-solution", retries=bool(ncalls > 1), **ctx, detail={"dt_in": dt_in, "dt_reported": dt_out, "calls": ncalls})
             continue
-        keep = disc > TOLERANCES["zone"] * b * b
+        keep = disc > TOLERANCES["zone"] * dsc
         nv = len(res.violations)
         check_answer(res, p_out[keep], x_out[keep], psi[keep], mu[keep], eps[keep], lap[keep], g, u, dt_out, {k: np.asarray(v)[keep] for k, v in ref.items()}, dict(ctx, step_level=True))
         if len(res.violations) > nv:
@@ -419,7 +437,7 @@ def run_recorded(case):
         ref = psi_update(psi, mu, eps, g, u, dt_out, lap)
         b = np.asarray(ref["b"], float)
         disc = np.asarray(ref["disc"], float)
-        keep = disc > TOLERANCES["zone"] * b * b
+        keep = disc > TOLERANCES["zone"] * np.asarray(disc_scale(ref, psi, eps, lap, g, u, dt_out), float)
         if not keep.all():
             res.count("recorded_updates_near_threshold")
         nv = len(res.violations)
